@@ -20,7 +20,7 @@ def universe_hash():
 
 
 def plan(tier, seed, complete=False):
-    items, zinfo = PL.plan_docs(tier, seed, complete, check="C04")
+    items, zinfo = PL.plan_docs(tier, seed, complete, check="C04", fx=700)
     return {
         "items": items, "zones": zinfo, "exhaustive": False,
         "rule": "documents of the frozen universes; stack automaton over every returned token list; distinct = distinct token-kind sequences",
@@ -41,4 +41,4 @@ def _mon(R, pm, key, doc, toks):
 
 
 def run_items(items, job):
-    return _tok.drive(items, None, _mon)
+    return _tok.drive(items, None, _mon, job=job)
